@@ -182,9 +182,12 @@ def engine(prop, spec, tier, seed, work):
                 elif l.startswith("RET ") and cur and (" E:" in l):
                     nontrivial.add(cur)
     stress = None
-    if tier == "thorough":
+    if True:
+        # free-running threads (no parking): the failing-input search for interleavings finer than the hook points
+        # (e.g. a read-modify-write split into a load and a store inside one segment) -- monitors only
         mf = os.path.join(work, "stress.mon")
-        r = subprocess.run([os.path.join(TARGET, "release", "concdriver"), "stress", "120", "16", str(seed), mf], stdout=subprocess.PIPE, stderr=subprocess.STDOUT, text=True, timeout=3000)
+        secs = "120" if tier == "thorough" else "4"
+        r = subprocess.run([os.path.join(TARGET, "release", "concdriver"), "stress", secs, "16", str(seed), mf], stdout=subprocess.PIPE, stderr=subprocess.STDOUT, text=True, timeout=3000)
         stress = r.stdout.strip().splitlines()[-1:] if r.stdout else []
         if os.path.exists(mf):
             for m in open(mf):
@@ -219,5 +222,6 @@ def register(PROPS):
                                 "the point-granularity argument of DESIGN.md section 4.4 (between two points a thread touches shared mutable state at most once) is made on paper",
                                 "DashMap is modelled as an association list guarded by per-shard reader-writer locks; its internals are not verified"]}
     PROPS["C03"] = dict(common, monitors=["C03", "C07"])
-    PROPS["C05"] = dict(common, monitors=["C05"])
+    PROPS["C05"] = dict(common, monitors=["C05"], orderings=True, props_extra=["C05R"],
+                        trusted_extra=common["trusted_extra"] + ["C05 data-race clause: coq/Sync.v is a hand-written release/acquire view machine (promise-free; SeqCst treated as AcqRel; locks as release/acquire channels) running a hand-abstracted synchronisation skeleton of the arena; only the 16 atomic orderings and two textual-order facts are extracted from the source (tools/extract_orderings.py, which fails on any atomic access it cannot attribute)"])
     PROPS["C09"] = dict(common, monitors=["C09"])
